@@ -1281,6 +1281,12 @@ pub mod verif_hooks {
     ) -> Option<u16> {
         super::bucket_id_to_thread_id(bucket_id, bucket_ids, num_threads)
     }
+
+    /// Fault injection for the replay runner: the next `BucketSegmentWriter::flush_writer` call
+    /// fails with an I/O error (once).
+    pub fn fail_next_flush_writer() {
+        crate::bucket::segment::FAIL_NEXT_FLUSH_WRITER.store(true, std::sync::atomic::Ordering::SeqCst);
+    }
 }
 
 #[cfg(test)]
